@@ -92,6 +92,11 @@ def run_case(kind, f, vs, data, declare_extra, supply_extra, perm):
             keys = permute(['time'] + supplied, perm)
             for k in keys:
                 ds[k] = [float(i) for i in range(n)] if k == 'time' else list(data[k])
+                if k == 'extra_v' and not declare_extra:
+                    # an entry of the log that is not a signal of the specification at all: a column recorded at another rate,
+                    # a label, a scalar
+                    col = ds[k]
+                    ds[k] = [col, col[:max(0, n - 1)], col + col[:1], 'run 7', 0.1][perm % 5]
             out = spec.evaluate(ds)
         elif kind in ('dt_on', 'dt_on_past'):
             n = len(data[vs[0]])
